@@ -8,7 +8,10 @@ use std::collections::{BTreeMap, HashSet};
 use std::hash::{Hash, Hasher};
 use std::sync::Mutex;
 
-pub const VERIF_DIR: &str = "/verif";
+/// root of the verification tree: $FFV_VERIF_DIR (set by ./check to its own directory) or /verif
+pub fn verif_dir() -> String {
+    std::env::var("FFV_VERIF_DIR").unwrap_or_else(|_| "/verif".to_string())
+}
 
 #[derive(Debug, Clone, Copy, PartialEq, Eq)]
 pub enum Tier {
@@ -322,7 +325,7 @@ pub struct Findings {
 
 impl Findings {
     pub fn load() -> Findings {
-        let path = format!("{VERIF_DIR}/KNOWN_FINDINGS.txt");
+        let path = format!("{}/KNOWN_FINDINGS.txt", verif_dir());
         let mut f = Findings::default();
         let Ok(text) = std::fs::read_to_string(&path) else { return f };
         for line in text.lines() {
@@ -393,7 +396,7 @@ pub fn now_secs() -> u64 {
 }
 
 pub fn write_replay(id: &str, f: &Failure) -> String {
-    let dir = format!("{VERIF_DIR}/replays");
+    let dir = format!("{}/replays", verif_dir());
     let _ = std::fs::create_dir_all(&dir);
     let body = json!({"property": id, "case": f.case, "message": f.msg, "profile": profile()});
     let text = serde_json::to_string_pretty(&body).unwrap();
@@ -520,7 +523,7 @@ pub fn finish(ctx: &Ctx, rep: Report, wall_s: f64, other: Option<(i32, Option<Va
         "violations": violations_total,
     });
     if ctx.part.is_none() {
-        let dir = format!("{VERIF_DIR}/evidence");
+        let dir = format!("{}/evidence", verif_dir());
         let _ = std::fs::create_dir_all(&dir);
         let path = format!("{dir}/{}.json", ctx.id);
         if let Err(e) = std::fs::write(&path, serde_json::to_string_pretty(&ev).unwrap()) {
@@ -569,8 +572,8 @@ pub fn run_other_profile(ctx: &Ctx) -> Option<(i32, Option<Value>)> {
         return None;
     }
     let bin = if cfg!(debug_assertions) { std::env::var("FFV_REL_BIN") } else { std::env::var("FFV_DEV_BIN") };
-    let bin = bin.unwrap_or_else(|_| if cfg!(debug_assertions) { format!("{VERIF_DIR}/harness/target/release/ffv") } else { format!("{VERIF_DIR}/harness/target/debug/ffv") });
-    let scratch = std::env::var("FFV_SCRATCH").unwrap_or_else(|_| format!("{VERIF_DIR}/harness/target/scratch"));
+    let bin = bin.unwrap_or_else(|_| if cfg!(debug_assertions) { format!("{}/harness/target/release/ffv", verif_dir()) } else { format!("{}/harness/target/debug/ffv", verif_dir()) });
+    let scratch = std::env::var("FFV_SCRATCH").unwrap_or_else(|_| format!("{}/harness/target/scratch", verif_dir()));
     let _ = std::fs::create_dir_all(&scratch);
     let part = format!("{scratch}/part-{}-{}.json", ctx.id, std::process::id());
     let _ = std::fs::remove_file(&part);
